@@ -17,6 +17,7 @@ import (
 	"github.com/prometheus/alertmanager/eventrecorder"
 	"github.com/prometheus/alertmanager/featurecontrol"
 	"github.com/prometheus/alertmanager/notify"
+	"github.com/prometheus/alertmanager/template"
 	"github.com/prometheus/alertmanager/types"
 
 	"verifharness/vh"
@@ -34,12 +35,18 @@ type call struct {
 	at      int64
 	outcome string
 	alerts  []*types.Alert
+	payload *SeenData // what a template of this integration sees on this attempt (snapshot)
 }
+
+// every scripted integration builds its template data on every attempt, as the real integrations do; the builds
+// are serialised so that a build that (wrongly) writes to the shared alerts is observed, not a data race
+var tmplMu sync.Mutex
 
 type scripted struct {
 	mu     sync.Mutex
 	id     int
 	script []string // ok | recov | unrecov | hang-retry | hang-noretry ; exhausted = recov
+	tmpl   *template.Template
 	okFrom int64 // != 0: time-based outage instead of the script: recov before this instant (unix ns), ok from it on
 	calls  []call
 	onCall func(id int, at int64, outcome string) // event trace (fanout engine)
@@ -53,13 +60,19 @@ func (s *scripted) Notify(ctx context.Context, alerts ...*types.Alert) (bool, er
 		o = s.script[k]
 	}
 	at := time.Now().UnixNano()
+	var payload *SeenData
+	if s.tmpl != nil {
+		tmplMu.Lock()
+		payload = seenOf(s.tmpl.Data("team", nil, nil, "", alerts...), 0)
+		tmplMu.Unlock()
+	}
 	if s.okFrom != 0 {
 		o = "recov"
 		if at >= s.okFrom {
 			o = "ok"
 		}
 	}
-	s.calls = append(s.calls, call{at: at, outcome: o, alerts: alerts})
+	s.calls = append(s.calls, call{at: at, outcome: o, alerts: alerts, payload: payload})
 	if s.onCall != nil {
 		s.onCall(s.id, at, o)
 	}
@@ -114,6 +127,20 @@ func coqAlerts(as []AlertJ, idx []int, now int64) string {
 	return vh.List(parts)
 }
 
+// coqSentSeen renders the alerts handed to Notify with the labels/annotations the template data of that call showed
+func coqSentSeen(as []AlertJ, idx []int, p *SeenData, now int64) string {
+	if p == nil || len(p.Alerts) != len(idx) {
+		return coqAlerts(as, idx, now)
+	}
+	parts := make([]string, len(idx))
+	for k, j := range idx {
+		a := as[j]
+		a.Labels, a.Annots = p.Alerts[k].Labels, p.Alerts[k].Annots
+		parts[k] = coqAlert(a, now)
+	}
+	return vh.List(parts)
+}
+
 func allIdx(n int) []int {
 	out := make([]int, n)
 	for i := range out {
@@ -126,7 +153,13 @@ func allIdx(n int) []int {
 func genBatch(r *vh.Rand, n int, boundary bool) []AlertJ {
 	var out []AlertJ
 	for i := 0; i < n; i++ {
-		a := AlertJ{Labels: map[string]string{"alertname": "Down", "instance": fmt.Sprintf("i%d", i)}, Annots: map[string]string{}, StartOff: -int64(time.Hour)}
+		a := AlertJ{Labels: map[string]string{"alertname": "Down", "instance": fmt.Sprintf("i%d", i)}, Annots: map[string]string{"summary": "x"}, StartOff: -int64(time.Hour)}
+		if i == 0 || r.Chance(1, 3) { // data of its own: most often on the first alert of the batch
+			a.Annots["description"] = fmt.Sprintf("instance i%d is down", i)
+		}
+		if i == 0 && r.Bool() {
+			a.Labels["extra"] = "only-here"
+		}
 		a.HasEnd = r.Chance(3, 4)
 		a.EndOff = vh.Pick(r, []int64{-int64(time.Minute), int64(time.Hour), int64(time.Hour)})
 		if boundary && r.Chance(1, 4) {
@@ -135,6 +168,37 @@ func genBatch(r *vh.Rand, n int, boundary bool) []AlertJ {
 		out = append(out, a)
 	}
 	return out
+}
+
+// payloadFaithful: every alert of the payload built on this call carries exactly the labels and annotations of
+// the batch alert it stands for ("" if so)
+func payloadFaithful(batch []AlertJ, sent []int, p *SeenData) string {
+	if p == nil {
+		return ""
+	}
+	if len(p.Alerts) != len(sent) {
+		return fmt.Sprintf("payload lists %d alerts, %d were handed over", len(p.Alerts), len(sent))
+	}
+	for k, i := range sent {
+		if i < 0 || !sameKV(p.Alerts[k].Labels, batch[i].Labels) || !sameKV(p.Alerts[k].Annots, batch[i].Annots) {
+			return fmt.Sprintf("alert %d of the payload has labels %v annotations %v, the batch alert has labels %v annotations %v",
+				k, p.Alerts[k].Labels, p.Alerts[k].Annots, batch[i].Labels, batch[i].Annots)
+		}
+	}
+	return ""
+}
+
+// payloadCore: the part of a payload that may not change between two attempts of one flush (an alert's status and
+// shown end time legitimately change when it resolves between attempts)
+func payloadCore(p *SeenData) string {
+	if p == nil {
+		return ""
+	}
+	q := SeenData{Group: p.Group, CommonLabels: p.CommonLabels, CommonAnnots: p.CommonAnnots}
+	for _, a := range p.Alerts {
+		q.Alerts = append(q.Alerts, SeenAlert{Labels: a.Labels, Annots: a.Annots, Starts: a.Starts})
+	}
+	return mustJSON(q)
 }
 
 func isFiring(a AlertJ) bool { return !(a.HasEnd && a.EndOff <= 0) }
@@ -283,7 +347,7 @@ func backoffBounds(k int) (lo, hi time.Duration) {
 func runRetry(t *testing.T, c *Case) result {
 	rc := c.Retry
 	var res result
-	sn := &scripted{script: rc.Script}
+	sn := &scripted{script: rc.Script, tmpl: theTemplate(t)}
 	var alerts []*types.Alert
 	var out []*types.Alert
 	var err error
@@ -355,6 +419,10 @@ func runRetry(t *testing.T, c *Case) result {
 	if len(rc.Attempts) > 0 {
 		sent = rc.Attempts[0].Sent
 	}
+	var lastPayload *SeenData
+	if len(sn.calls) > 0 {
+		lastPayload = sn.calls[len(sn.calls)-1].payload // the model's r_sent is compared with what the LAST attempt was shown
+	}
 	scr := make([]string, len(rc.Script))
 	for i, o := range rc.Script {
 		scr[i] = coqOutcome(o)
@@ -366,7 +434,7 @@ func runRetry(t *testing.T, c *Case) result {
 		}
 	}
 	res.term = vh.App("CRetry", vh.Bool(rc.SendResolved), nfTerm, coqAlerts(rc.Alerts, allIdx(len(rc.Alerts)), rc.Start),
-		vh.Z(rc.Start), vh.Z(dl), vh.List(scr), vh.List(atts), coqAlerts(rc.Alerts, sent, rc.Start), coqErr(rc.Err, rc.Last),
+		vh.Z(rc.Start), vh.Z(dl), vh.List(scr), vh.List(atts), coqSentSeen(rc.Alerts, sent, lastPayload, rc.Start), coqErr(rc.Err, rc.Last),
 		coqAlerts(rc.Alerts, rc.Out, rc.Start), vh.Z(rc.End))
 
 	// ---- direct oracle ----
@@ -380,9 +448,20 @@ func runRetry(t *testing.T, c *Case) result {
 			wantSent = append(wantSent, i)
 		}
 	}
+	first := ""
 	for k, a := range rc.Attempts {
 		if a.At > dl {
 			viol("retry-attempt-after-deadline", fmt.Sprintf("attempt %d started %dns after the flush deadline", k+1, a.At-dl))
+		}
+		if why := payloadFaithful(rc.Alerts, a.Sent, sn.calls[k].payload); why != "" {
+			viol("retry-payload-not-the-batch", fmt.Sprintf("attempt %d: %s", k+1, why))
+		}
+		if k > 0 {
+			if pk := payloadCore(sn.calls[k].payload); pk != first {
+				viol("retry-payload-differs-between-attempts", fmt.Sprintf("attempt %d is shown %s, attempt 1 was shown %s", k+1, pk, first))
+			}
+		} else {
+			first = payloadCore(sn.calls[0].payload)
 		}
 		if fmt.Sprint(a.Sent) != fmt.Sprint(wantSent) {
 			viol("retry-wrong-alerts-sent", fmt.Sprintf("attempt %d got alerts %v, want %v (send_resolved=%v)", k+1, a.Sent, wantSent, rc.SendResolved))
